@@ -15,9 +15,11 @@ import (
 	"encoding/binary"
 	"fmt"
 	"io"
+	"runtime"
 	"strconv"
 	"strings"
 	"sync"
+	"sync/atomic"
 	"time"
 
 	"golang.org/x/crypto/ssh"
@@ -390,12 +392,43 @@ func execSnd(o hx.Op) string {
 
 func execRcv(o hx.Op) string {
 	s := &base{p: newPipe(), w0: 1 << 20, m: 1 << 15}
-	s.onAdjust = func(n uint32) { s.event(fmt.Sprintf("A%d", n)) }
+	sendOff := map[uint32]int{}
+	var refillOn atomic.Bool
+	s.onAdjust = func(n uint32) {
+		s.event(fmt.Sprintf("A%d", n))
+		if !refillOn.Load() {
+			return
+		}
+		// We are inside the mux's own writePacket of the window adjust. A compliant but fast peer uses the whole
+		// new grant at once; give the mux read loop the chance to handle that data BEFORE this writePacket returns
+		// (if the receiver credits myWindow only after writing the adjust, handleData finds the window too small).
+		left := int(n)
+		for left > 0 {
+			l := left
+			if l > 1<<15 {
+				l = 1 << 15
+			}
+			b := append([]byte{94}, sshU32(s.clientID)...)
+			b = append(b, sshU32(uint32(l))...)
+			b = append(b, fill(0, sendOff[0], l)...)
+			sendOff[0] += l
+			s.p.send(b)
+			left -= l
+		}
+		for dl := time.Now().Add(20 * time.Millisecond); time.Now().Before(dl); {
+			if s.p.idle() || s.p.isClosed() {
+				break
+			}
+			runtime.Gosched()
+			if s.p.empty() {
+				time.Sleep(20 * time.Microsecond)
+			}
+		}
+	}
 	ch, st := s.open(o.Str("dir"))
 	if st != "ok" {
 		return "open-" + st
 	}
-	sendOff := map[uint32]int{}
 	readOff := map[uint32]int{}
 	var segs []string
 	flush := func() {
@@ -475,8 +508,9 @@ func execRcv(o hx.Op) string {
 				return strings.Join(segs, "|")
 			}
 			flush()
-		case 'r', 's':
+		case 'r', 's', 'R':
 			n, _ := strconv.Atoi(t[1:])
+			refillOn.Store(t[0] == 'R')
 			code := uint32(0)
 			var rd io.Reader = ch
 			if t[0] == 's' {
@@ -507,6 +541,13 @@ func execRcv(o hx.Op) string {
 				s.mu.Unlock()
 			case <-time.After(5 * time.Second):
 				return "hang"
+			}
+			refillOn.Store(false)
+			if t[0] == 'R' && !settle() {
+				// the refill tore the connection down
+				flush()
+				segs = append(segs, "X")
+				return strings.Join(segs, "|")
 			}
 			flush()
 		default:
@@ -970,12 +1011,35 @@ func genRcv(g *hx.Gen) {
 	g.Emit("rcv dir=%s steps=%s", r.PickStr("out", "in"), strings.Join(toks, ","))
 }
 
+// genRace: the receive window is exactly exhausted, then every Read's window adjust is answered by the peer at once,
+// from inside the writePacket of the adjust, with data that uses the whole new grant — 30..90 times per op.
+// (adjustWindow must advertise and credit in one critical section: theorem adjust_must_be_atomic)
+func genRace(g *hx.Gen) {
+	r := g.R
+	var toks []string
+	switch r.Intn(3) {
+	case 0:
+		toks = append(toks, "D64x32768")
+	case 1:
+		toks = append(toks, "D63x32768", "d32768")
+	case 2:
+		toks = append(toks, "D32x32768", "e1.32768", "D31x32768")
+	}
+	for i := r.Range(30, 90); i > 0; i-- {
+		toks = append(toks, fmt.Sprintf("R%d", r.PickInt(32768, 32768, 1, 100, 4096, 65536, 98305, 1<<20)))
+	}
+	g.Stat("rcv.race-refill")
+	g.Emit("rcv dir=%s steps=%s", r.PickStr("out", "in"), strings.Join(toks, ","))
+}
+
 func gen(g *hx.Gen) {
 	n := g.Count(300, 40000)
 	for i := 0; i < n; i++ {
 		switch {
 		case i%8 == 7:
 			genPair(g)
+		case i%8 == 3 && (!g.Thorough() || i%40 == 3): // (each race op moves > 2 MiB: thinner in the thorough tier)
+			genRace(g)
 		case i%2 == 0:
 			genSnd(g)
 		default:
